@@ -95,8 +95,19 @@ Definition glencoe_write (m : fm) : result aval :=
   end.
 
 (* ------------------------------------------------------------------------------- reader *)
-Definition jbool (v : aval) : result bool :=
-  match v with VBool b => Ok b | _ => Err OtherExn end.
+(* bool(v): Python's truth value of a JSON value.  glencoe_reader.py tests the "optional" entry of a feature
+   with `if optional:` / `0 if optional else 1` / `elif not optional:`, whatever the entry is.
+   (The same function as aval_truthy of Model/PyRt.v, which comes later in the build.) *)
+Definition jtruthy (v : aval) : bool :=
+  match v with
+  | VNone => false
+  | VBool b => b
+  | VInt z => negb (Z.eqb z 0%Z)
+  | VFloat r => negb (String.eqb r "0.0" || String.eqb r "-0.0")
+  | VStr s => negb (String.eqb s "")
+  | VList l => match l with [] => false | _ :: _ => true end
+  | VMap kv => match kv with [] => false | _ :: _ => true end
+  end.
 
 (* features_info[id][key] *)
 Definition finfo_get (features_info : aval) (id : aval) (key : string) : result aval :=
@@ -134,7 +145,7 @@ Fixpoint glencoe_parse_tree (fuel : nat) (finfo_ : aval) (here : path) (parent :
           let flags : list (option bool) :=
             map (fun c => match jget "id" c with
                           | Ok cid => match finfo_get finfo_ cid "optional" with
-                                      | Ok ov => match jbool ov with Ok b => Some b | Err _ => None end
+                                      | Ok ov => Some (jtruthy ov)
                                       | Err _ => None
                                       end
                           | Err _ => None
@@ -155,9 +166,9 @@ Fixpoint glencoe_parse_tree (fuel : nat) (finfo_ : aval) (here : path) (parent :
                        | Ok pc =>
                            match jget "id" c with Err e => Err e | Ok cid =>
                            match finfo_get finfo_ cid "optional" with Err e => Err e | Ok ov =>
-                           match jbool ov with Err e => Err e | Ok opt =>
+                           let opt := jtruthy ov in     (* `if optional:`: the truth value, no type test *)
                            match goc (S p) cs with Err e => Err e | Ok rest => Ok ((pc, opt) :: rest)
-                           end end end end
+                           end end end
                        end
                    end) 0%nat chl with
           | Err e => Err e
